@@ -1,15 +1,17 @@
-(** * C04, part 2 -- the states that histories of push/close can REACH (from [loop_new], any operation list).
-    Generic theorems hold for every number instance (reals, Flocq floats, primitive floats); the corner theorems
-    need geometry and are stated over the reals.  The [_refuted] theorems are witnesses, evaluated on the binary64
-    instance that is executed against the crate (each one reproduced on the real crate, see notes/c04_reach_NOTES.md):
-    they show which of the natural invariants -- some of them demanded by the property text -- do NOT hold. *)
+(** * C04, part 2 -- the states that histories of push/close could REACH with the code BEFORE the fix of push/close
+    ([loop_push_pre], [loop_close_pre], [loop_run_pre] of Model/Loop.v = the text of loop3d.rs before that fix).
+    This file is the record of the six defects repaired by that fix: the theorems say what that code guaranteed, the
+    [_refuted] theorems are the witnesses (binary64, each reproduced on the crate of that time) of what it did not --
+    "closed => three vertices", "no collinear vertex in a closed loop", "valid points are accepted", "a closed loop no
+    longer changes".  The same witnesses on the live code: Properties/C04_reach_live.v (Examples), where the property
+    clauses are theorems. *)
 From Coq Require Import ZArith List Floats Reals.
 From G3 Require Import Model.Num Model.NumF Model.Base Model.Vec Model.Segment Model.Loop Proofs.C04_loop Proofs.C04_reach.
 Import ListNotations.
 
 (** ** 1. the invariant of reachable states (one induction over operation lists) *)
 Theorem C04_reachable_invariant : forall (K : Type) (NK : Num K) (ops : list (lop K)),
-  Reach_inv (fst (loop_run (@loop_new K NK) ops)).
+  Reach_inv (fst (loop_run_pre (@loop_new K NK) ops)).
 Proof. exact (fun K NK => @reachable_invariant K NK). Qed.
 
 (** the same, spelled out: in every reachable state L
@@ -19,7 +21,7 @@ Proof. exact (fun K NK => @reachable_invariant K NK). Qed.
       (so it never changes while the loop has >= 4 vertices, and it is recomputed each time a push leaves exactly 3);
     - no two consecutive stored vertices are equal for Point3D::compare, unless the loop has exactly two vertices. *)
 Theorem C04_reachable_state_facts : forall (K : Type) (NK : Num K) (ops : list (lop K)),
-  let L := fst (loop_run (@loop_new K NK) ops) in
+  let L := fst (loop_run_pre (@loop_new K NK) ops) in
   (lclosed L = true -> 1 <= llen L) /\
   (lclosed L = false -> larea L = nneg n1 /\ lperim L = nneg n1) /\
   (lclosed L = false -> 3 <= llen L -> lnormal L = tri_normal (verts L)) /\
@@ -33,12 +35,12 @@ Qed.
 (** an accepted push: the loop was open and stays open, area / perimeter untouched, the vertex list is one of
     first points (fewer than 2 vertices: appended) / spike pop / collinear replacement / append, with the test results that
     selected the branch; the normal is recomputed from the first corner iff exactly three vertices are left *)
-Theorem C04_push_effect : forall (K : Type) (NK : Num K) (L L' : Loop K) (p : V3 K), loop_push L p = Ok L' ->
+Theorem C04_push_effect : forall (K : Type) (NK : Num K) (L L' : Loop K) (p : V3 K), loop_push_pre L p = Ok L' ->
   lclosed L = false /\ push_shape (verts L) p (verts L') /\
   L' = mkLoop (verts L') (if Nat.eqb (llen L') 3 then tri_normal (verts L') else lnormal L) false (larea L) (lperim L).
 Proof. exact (fun K NK => @push_ok_effect K NK). Qed.
 (** the vertex count moves by at most one; the cached normal can change only when the push leaves exactly three vertices *)
-Theorem C04_push_len_normal : forall (K : Type) (NK : Num K) (L L' : Loop K) (p : V3 K), loop_push L p = Ok L' ->
+Theorem C04_push_len_normal : forall (K : Type) (NK : Num K) (L L' : Loop K) (p : V3 K), loop_push_pre L p = Ok L' ->
   (llen L' = llen L - 1 \/ llen L' = llen L \/ llen L' = S (llen L)) /\ (lnormal L' = lnormal L \/ llen L' = 3).
 Proof. exact (fun K NK => @push_len_normal K NK). Qed.
 
@@ -51,7 +53,7 @@ Proof. exact (fun K NK => @crosses_any_false K NK). Qed.
     vertex and the crossing test of its edge against all the then-stored edges 0 .. n-3.  (Neither is re-tested when the
     appended vertex is later REPLACED by a tolerance-collinear one: C04_closed_collinear_by_replacement_refuted.) *)
 Theorem C04_append_checked : forall (K : Type) (NK : Num K) (L L' : Loop K) (p : V3 K),
-  loop_push L p = Ok L' -> verts L' = verts L ++ [p] -> 2 <= llen L ->
+  loop_push_pre L p = Ok L' -> verts L' = verts L ++ [p] -> 2 <= llen L ->
   is_collinear (vnth (verts L) (llen L - 2)) (vnth (verts L) (llen L - 1)) p = Ok false /\
   (3 <= llen L -> forall i, i < llen L - 2 ->
      seg_intersect (seg_new (vnth (verts L) (llen L - 1)) p) (seg_new (vnth (verts L) i) (vnth (verts L) (S i))) = None).
@@ -61,7 +63,7 @@ Proof. exact (fun K NK => @push_append_checked K NK). Qed.
     changed / the closed flag was set -- outcome Ok, or error 33 / 36 of set_area, set_perimeter WITH THE FLAG LEFT SET --
     and the vertex list is the old one minus (the last vertex iff test 1) minus (the first vertex iff test 2) *)
 Theorem C04_close_effect : forall (K : Type) (NK : Num K) (L : Loop K),
-  let L' := fst (loop_close L) in let o := snd (loop_close L) in
+  let L' := fst (loop_close_pre L) in let o := snd (loop_close_pre L) in
   (L' = L /\ o <> Ok tt) \/
   (3 <= llen L /\ close_test1 L = Ok true /\ L' = set_verts L (removelast (verts L)) /\ o <> Ok tt) \/
   (3 <= llen L /\ lclosed L = false /\ lclosed L' = true /\ (o = Ok tt \/ o = Err 33%N \/ o = Err 36%N) /\
@@ -70,15 +72,15 @@ Theorem C04_close_effect : forall (K : Type) (NK : Num K) (L : Loop K),
      close_test2 vs1 = Ok c2 /\ verts L' = (if c2 then tl vs1 else vs1)).
 Proof. exact (fun K NK => @close_effect K NK). Qed.
 (** what a FAILED close may have changed (the property demands an unchanged state only for refused additions) *)
-Theorem C04_failed_close_effect : forall (K : Type) (NK : Num K) (L : Loop K), snd (loop_close L) <> Ok tt ->
-  let L' := fst (loop_close L) in
+Theorem C04_failed_close_effect : forall (K : Type) (NK : Num K) (L : Loop K), snd (loop_close_pre L) <> Ok tt ->
+  let L' := fst (loop_close_pre L) in
   L' = L \/
   (3 <= llen L /\ close_test1 L = Ok true /\ L' = set_verts L (removelast (verts L))) \/
-  (3 <= llen L /\ lclosed L = false /\ lclosed L' = true /\ (snd (loop_close L) = Err 33%N \/ snd (loop_close L) = Err 36%N)).
+  (3 <= llen L /\ lclosed L = false /\ lclosed L' = true /\ (snd (loop_close_pre L) = Err 33%N \/ snd (loop_close_pre L) = Err 36%N)).
 Proof. exact (fun K NK => @failed_close_effect K NK). Qed.
 (** a successful close: closed, >= 3 vertices, and exactly which vertices were dropped *)
-Theorem C04_close_ok_effect : forall (K : Type) (NK : Num K) (L : Loop K), snd (loop_close L) = Ok tt ->
-  let L' := fst (loop_close L) in
+Theorem C04_close_ok_effect : forall (K : Type) (NK : Num K) (L : Loop K), snd (loop_close_pre L) = Ok tt ->
+  let L' := fst (loop_close_pre L) in
   lclosed L = false /\ lclosed L' = true /\ 3 <= llen L' /\
   exists c1 c2, close_test1 L = Ok c1 /\
     let vs1 := if c1 then removelast (verts L) else verts L in
@@ -86,7 +88,7 @@ Theorem C04_close_ok_effect : forall (K : Type) (NK : Num K) (L : Loop K), snd (
 Proof. exact (fun K NK => @close_ok_effect K NK). Qed.
 (** when a successful close dropped nothing, both wrap-around corners passed the library's collinearity test *)
 Theorem C04_close_nothing_dropped_corners : forall (K : Type) (NK : Num K) (L : Loop K),
-  snd (loop_close L) = Ok tt -> verts (fst (loop_close L)) = verts L ->
+  snd (loop_close_pre L) = Ok tt -> verts (fst (loop_close_pre L)) = verts L ->
   is_collinear (vnth (verts L) (llen L - 2)) (vnth (verts L) (llen L - 1)) (vnth (verts L) 0) = Ok false /\
   is_collinear (vnth (verts L) (llen L - 1)) (vnth (verts L) 0) (vnth (verts L) 1) = Ok false.
 Proof. exact (fun K NK => @close_ok_nothing_dropped K NK). Qed.
@@ -95,8 +97,8 @@ Proof. exact (fun K NK => @close_ok_nothing_dropped K NK). Qed.
     the vertex list stays -- except that a further close pops the last vertex when it tests collinear with its cyclic
     neighbours (this does happen: C04_closed_absorbing_refuted) *)
 Theorem C04_closed_absorbing : forall (K : Type) (NK : Num K) (L : Loop K) (op : lop K), lclosed L = true ->
-  let L' := fst (loop_step L op) in
-  snd (loop_step L op) <> Ok tt /\ lclosed L' = true /\ lnormal L' = lnormal L /\ larea L' = larea L /\ lperim L' = lperim L /\
+  let L' := fst (loop_step_pre L op) in
+  snd (loop_step_pre L op) <> Ok tt /\ lclosed L' = true /\ lnormal L' = lnormal L /\ larea L' = larea L /\ lperim L' = lperim L /\
   (verts L' = verts L \/ (op = LClose /\ 3 <= llen L /\ close_test1 L = Ok true /\ verts L' = removelast (verts L))).
 Proof. exact (fun K NK => @closed_absorbing K NK). Qed.
 
@@ -104,7 +106,7 @@ Proof. exact (fun K NK => @closed_absorbing K NK). Qed.
     (the three points on one line).  Then every interior corner of every reachable state is genuine: its two edges are not
     parallel, none of them null.  Without the hypothesis this is false (section 4). *)
 Theorem C04_interior_corners_genuine_exact : forall (ops : list (lop R)), exact_run (@loop_new R NumR) ops ->
-  let L := fst (loop_run (@loop_new R NumR) ops) in
+  let L := fst (loop_run_pre (@loop_new R NumR) ops) in
   forall i, S (S i) < llen L -> genuine (vnth (verts L) i) (vnth (verts L) (S i)) (vnth (verts L) (S (S i))).
 Proof. exact reachable_corners_genuine_nth. Qed.
 (** ... and for a loop closed successfully with no vertex dropped by close, ALL corners are genuine, cyclically:
@@ -112,9 +114,9 @@ Proof. exact reachable_corners_genuine_nth. Qed.
     PARTIAL with respect to the property text: when close drops the first / last vertex the new wrap-around corners are not
     re-tested, and the statement is false even for exact data (C04_closed_collinear_exact_refuted). *)
 Theorem C04_closed_corners_genuine_partial : forall (ops : list (lop R)),
-  let L := fst (loop_run (@loop_new R NumR) ops) in
-  exact_run (@loop_new R NumR) ops -> snd (loop_close L) = Ok tt -> verts (fst (loop_close L)) = verts L ->
-  let L' := fst (loop_close L) in let n := llen L' in
+  let L := fst (loop_run_pre (@loop_new R NumR) ops) in
+  exact_run (@loop_new R NumR) ops -> snd (loop_close_pre L) = Ok tt -> verts (fst (loop_close_pre L)) = verts L ->
+  let L' := fst (loop_close_pre L) in let n := llen L' in
   lclosed L' = true /\ 3 <= n /\
   (forall i, S (S i) < n -> genuine (vnth (verts L') i) (vnth (verts L') (S i)) (vnth (verts L') (S (S i)))) /\
   genuine (vnth (verts L') (n - 2)) (vnth (verts L') (n - 1)) (vnth (verts L') 0) /\
@@ -122,7 +124,7 @@ Theorem C04_closed_corners_genuine_partial : forall (ops : list (lop R)),
 Proof. exact closed_all_corners_genuine. Qed.
 
 (** ** 4. non-vacuity and refutations on the executed instance (binary64) *)
-Definition frun (ops : list (lop float)) := @loop_run float NumF (@loop_new float NumF) ops.
+Definition frun (ops : list (lop float)) := @loop_run_pre float NumF (@loop_new float NumF) ops.
 Definition P2 (x y : float) : lop float := LPush (mkV3 x y 0%float).
 
 (** a history with a collinear run (1,0) (2,0) (3,0), a spike (3,2) -> (2,1) -> (3,2), a refused crossing push (1,-1), a
@@ -146,7 +148,7 @@ Proof. exists [P2 0 0; P2 1 0; P2 1 0x1p-16; P2 1.5 0x1p-18; LClose]%float. vm_c
     outline has no plane *)
 Theorem C04_small_loop_normal_unset_refuted : exists (ops : list (lop float)) (p : V3 float),
   let L := fst (frun ops) in
-  llen L = 2 /\ lclosed L = false /\ lnormal L = (mkV3 0 0 1)%float /\ @loop_push float NumF L p = Err 31%N.
+  llen L = 2 /\ lclosed L = false /\ lnormal L = (mkV3 0 0 1)%float /\ @loop_push_pre float NumF L p = Err 31%N.
 Proof. exists [P2 0 0; P2 1 0; P2 1 1; P2 1 0]%float, (mkV3 1 0 1)%float. vm_compute. repeat split; reflexivity. Qed.
 
 (** REFUTED ("every point that keeps the outline planar and non-crossing is accepted"): a tolerance-collinear replacement
@@ -155,7 +157,7 @@ Proof. exists [P2 0 0; P2 1 0; P2 1 1; P2 1 0]%float, (mkV3 1 0 1)%float. vm_com
 Theorem C04_nan_normal_by_replacement_refuted : exists (ops : list (lop float)) (p : V3 float),
   let L := fst (frun ops) in
   snd (frun ops) = [Ok tt; Ok tt; Ok tt; Ok tt] /\ verts L = [mkV3 0 0 0; mkV3 1 0 0; mkV3 1.5 0 0]%float /\
-  PrimFloat.is_nan (vz (lnormal L)) = true /\ vz p = 0%float /\ @loop_push float NumF L p = Err 31%N.
+  PrimFloat.is_nan (vz (lnormal L)) = true /\ vz p = 0%float /\ @loop_push_pre float NumF L p = Err 31%N.
 Proof. exists [P2 0 0; P2 1 0; P2 1 0x1p-16; P2 1.5 0]%float, (mkV3 2 1 0)%float. vm_compute. repeat split; reflexivity. Qed.
 
 (** REFUTED ("no vertex of a closed loop is collinear with its two neighbours"), EXACT data, no tolerance involved:
@@ -194,8 +196,8 @@ Proof. exists [LPush (mkV3 1 2 3); LPush (mkV3 1 2 3)]%float. vm_compute. split;
     between (0,2) and (0,0); a SECOND close is refused (Err 30) but pops (0,0.25) from the closed loop first *)
 Theorem C04_closed_absorbing_refuted : exists ops : list (lop float),
   let L := fst (frun ops) in
-  lclosed L = true /\ snd (@loop_close float NumF L) = Err 30%N /\ llen L = 5 /\ llen (fst (@loop_close float NumF L)) = 4 /\
-  lclosed (fst (@loop_close float NumF L)) = true /\ (forall o, In o (snd (frun ops)) -> o = Ok tt).
+  lclosed L = true /\ snd (@loop_close_pre float NumF L) = Err 30%N /\ llen L = 5 /\ llen (fst (@loop_close_pre float NumF L)) = 4 /\
+  lclosed (fst (@loop_close_pre float NumF L)) = true /\ (forall o, In o (snd (frun ops)) -> o = Ok tt).
 Proof.
   exists [P2 0 0; P2 1 0; P2 1 2; P2 0 2; P2 0 0.25; P2 0x1p-15 0.125; LClose]%float. vm_compute.
   repeat split; try reflexivity. intros o H. repeat (destruct H as [H|H]; [symmetry; exact H|]). destruct H.
